@@ -492,3 +492,64 @@ func (L layers) source(pointer string) string {
 	}
 	return "none"
 }
+
+// ---------- Part H ----------
+
+const big53 = "9007199254740992" // 2^53: the first integer whose successor a float64 cannot hold
+
+func rawBody(id string, n map[string]any) body {
+	b, _ := json.Marshal(obj("type", "object", "properties", obj("n", n)))
+	return body{ID: id, Text: string(b)}
+}
+
+// bigBodies constrain n by exact integers at +-2^53.
+func bigBodies() []body {
+	return []body{
+		rawBody("n:int<=2^53", obj("type", "integer", "maximum", json.Number(big53))),
+		rawBody("n:enum[2^53]", obj("enum", []any{json.Number(big53)})),
+		rawBody("n:const2^53", obj("const", json.Number(big53))),
+		rawBody("n:int>=-2^53", obj("type", "integer", "minimum", json.Number("-"+big53))),
+	}
+}
+
+// bigTrees: n just inside / just outside the bound, as int64, json.Number and through --set.
+func bigTrees() []vtree {
+	var out []vtree
+	for _, v := range []struct {
+		id string
+		i  int64
+	}{{"big", 9007199254740992}, {"big+1", 9007199254740993}, {"-big-1", -9007199254740993}, {"small", 5}} {
+		out = append(out,
+			vtree{v.id + ":U-int64", layers{U: obj("n", v.i), URep: "int64"}},
+			vtree{v.id + ":U-jnum", layers{U: obj("n", json.Number(fmt.Sprint(v.i))), URep: "jnum"}},
+			vtree{v.id + ":U-set", layers{U: obj("n", v.i), CLI: "set"}},
+		)
+	}
+	return out
+}
+
+func nestedRequiredBody() body {
+	o := obj("type", "object", "properties", obj("j", obj("type", "integer"), "k", obj("type", "integer")), "required", []any{"j", "k"})
+	b, _ := json.Marshal(obj("type", "object", "properties", obj("o", o), "required", []any{"o"}))
+	return body{ID: "o:{j:int,k:int}req[jk],req[o]", Text: string(b)}
+}
+
+// partialOverrideTrees: the members of o come from different layers; the
+// user touches only a part of the table.
+func partialOverrideTrees(depth int) []vtree {
+	out := []vtree{
+		{"partial:D{j,k}<U{k}", layers{D: obj("o", obj("j", 1.0, "k", 1.0)), U: obj("o", obj("k", 2.0))}},
+		{"partial:D{j}+U{k}", layers{D: obj("o", obj("j", 1.0)), U: obj("o", obj("k", 2.0))}},
+		{"partial:D{j,k}<U{k:bad}", layers{D: obj("o", obj("j", 1.0, "k", 1.0)), U: obj("o", obj("k", "x"))}},
+		{"partial:D{k}<U{k}", layers{D: obj("o", obj("k", 1.0)), U: obj("o", obj("k", 2.0))}},
+		{"partial:D{j,k}<U{k}file", layers{D: obj("o", obj("j", 1.0, "k", 1.0)), U: obj("o", obj("k", 2.0)), CLI: "file"}},
+		{"partial:D{j,k}<U{k}set", layers{D: obj("o", obj("j", 1.0, "k", 1.0)), U: obj("o", obj("k", 2.0)), CLI: "set"}},
+	}
+	if depth > 0 {
+		out = append(out,
+			vtree{"partial:P{j,k}<U{k}", layers{P: obj("o", obj("j", 1.0, "k", 1.0)), U: obj("o", obj("k", 2.0))}},
+			vtree{"partial:D{j}+P{k}", layers{D: obj("o", obj("j", 1.0)), P: obj("o", obj("k", 2.0))}},
+		)
+	}
+	return out
+}
